@@ -72,6 +72,10 @@ def curated():
     # 15 same rule completed with different origins (variable-length tail): S : Q P ; Q : Q a | a ; P : a R ; R : R a |
     c.append(entry("sameruleorig", [R(S, [A, B], 1, 1, [1, 2]), R(A, [A, 1], 2, 1, [1]), R(A, [1], 3, 1, []), R(B, [1, C], 4, 1, [2]), R(C, [C, 1], 5, 1, [1]), R(C, [])],
                    maxlen=6, alphabet=[1]))
+    # 16 error only expected at the very beginning: a recovery goes all the way back and the parser arrives again at
+    #    parser-list indexes for which sets were cached during the abandoned continuation (found by MCCache)
+    c.append(entry("staleplace", [R(S, [A], 1, 1, [1]), R(S, [0, A], 2, 1, [2]), R(A, [A, B], 3, 1, [1, 2]), R(A, [B], 0, 0, [1]), R(B, [1, 2], 4, 1, [1, 2]), R(B, [3, B], 5, 1, [1, 2])],
+                   maxlen=3, alphabet=[1, 2, 3], inputs=[[3, 3, 1, 2, 2, 3, 1, 2], [3, 1, 2, 2, 1, 2], [3, 3, 1, 2, 1, 3, 1, 2], [1, 2, 3, 3, 3, 2, 3, 1, 2]]))
     return c
 
 
